@@ -149,6 +149,15 @@ def check_reset(ctx, chk, prefix):
         if fam in col_done and not cs:
             continue
         if len(cs) != 1:
+            blind = [e for e in others if e.kind != "column"]
+            if not cs and blind:
+                # stores into the state that were not decoded as one host's cell (rows addressed
+                # through an index array, a mask, ...): the status store may be one of them
+                chk.undecided(f"{prefix}.reset-store", f"Network.reset stores {fam} once per host",
+                              f"0 decoded store(s) to {fam}; not decoded: "
+                              + "; ".join(f"{e.kind} store at {e.ev.loc}" for e in blind[:4]),
+                              r.fi.module.path)
+                continue
             chk.ob(f"{prefix}.reset-store", f"Network.reset stores {fam} once per host",
                    False, f"{len(cs)} store(s) to {fam}", r.fi.module.path)
             continue
